@@ -57,7 +57,7 @@ func (s *AggStream) win(t int64) int64 {
 	if !s.HasIv {
 		return 0
 	}
-	return t / iv
+	return floorDivW(t, iv)
 }
 
 func (s *AggStream) inType(c int) influxql.DataType {
@@ -350,13 +350,15 @@ func genAggStream(r *gen.Rand) *AggStream {
 		ng = r.Range(1, 3)
 	}
 	nb := r.Range(1, 4)
+	// windows before the epoch and straddling 0: the whole stream is shifted by whole windows
+	sh := gen.Pick(r, []int64{0, 0, -1, -2, -int64(nb)})
 	for g := 0; g < ng; g++ {
 		n := r.Range(1, 6)
 		var ts []int64
 		for i := 0; i < n; i++ {
 			// boundary-biased: window starts and ends are frequent
 			k := int64(r.Range(0, nb-1))
-			ts = append(ts, k*iv+gen.Pick(r, []int64{0, 0, 1, 4, 9, 9}))
+			ts = append(ts, (k+sh)*iv+gen.Pick(r, []int64{0, 0, 1, 4, 9, 9}))
 		}
 		for i := 1; i < len(ts); i++ {
 			for j := i; j > 0 && ts[j-1] > ts[j]; j-- {
@@ -439,6 +441,8 @@ func fixedAggStreams() []*AggStream {
 			mk(false, true, []AggRow{{0, 9, []*int64{p(3)}}, {0, 10, []*int64{p(5)}}})
 			mk(false, true, []AggRow{{0, 0, []*int64{p(3)}}, {0, 10, []*int64{p(5)}}, {0, 20, []*int64{p(7)}}})
 			mk(false, true, []AggRow{{0, 10, []*int64{p(3)}}, {0, 19, []*int64{p(5)}}})
+			// before the epoch: -17 and -7 lie in different windows, -10 starts the window of -7, -1 and 0 are apart
+			mk(false, true, []AggRow{{0, -17, []*int64{p(3)}}, {0, -10, []*int64{p(4)}}, {0, -7, []*int64{p(5)}}, {0, -1, []*int64{p(6)}}, {0, 0, []*int64{p(7)}}, {0, 3, []*int64{p(8)}}})
 			mk(true, true, []AggRow{{0, 10, []*int64{p(3)}}, {1, 10, []*int64{p(5)}}})
 			mk(true, false, []AggRow{{0, 1, []*int64{p(3)}}, {0, 11, []*int64{p(5)}}, {1, 11, []*int64{p(7)}}})
 			mk(false, false, []AggRow{{0, 1, []*int64{p(3)}}, {0, 11, []*int64{p(5)}}})
